@@ -36,6 +36,9 @@ SOURCES = {
     'two_chirps': [('chirp', 0.4, 0.05, 1.0, 0.0), ('chirp', 0.05, -0.01, 2.0, 2.0)],
     # a custom source that plays back a STORED table (returns a view of it), then a chirp: the table belongs to the caller
     'table+chirp': [('table',), ('chirp', 0.21, 0.013, 1.5, 0.3)],
+    # a chirp, then a COMPLEX stored table handed out as a view: the stream's voltages are real and non-zero when the first
+    # complex source arrives, and the caller's table must not become the accumulator (seeded change C10-29)
+    'chirp+ctable': [('chirp', 0.11, 0.0, 1.0, 1.0), ('ctable',)],
     # a custom source returning single-precision values, then a chirp (which is still summed in double precision)
     'f32+chirp': [('f32',), ('chirp', 0.21, 0.013, 1.5, 0.3)],
     # chirp parameters as astropy Quantities in non-base units (kHz, kHz/s)
@@ -44,8 +47,9 @@ SOURCES = {
 
 
 class _Table(object):
-    def __init__(self):
-        self.T = np.full(4096, 0.75)
+    def __init__(self, val=0.75):
+        self.val = val
+        self.T = np.full(4096, val)
 
     def __call__(self, ts):
         return self.T[:len(ts)]
@@ -178,8 +182,8 @@ def add_sources(s, cfg, twin_noise_only=False):
             s.add_signal(_real_fn)
         elif src[0] == 'complex':
             s.add_signal(_complex_fn)
-        elif src[0] == 'table':
-            tb = _Table()
+        elif src[0] in ('table', 'ctable'):
+            tb = _Table() if src[0] == 'table' else _Table(0.75 + 0.25j)
             s._c10_tables = getattr(s, '_c10_tables', []) + [tb]
             s.add_signal(tb)
         elif src[0] == 'f32':
@@ -200,6 +204,8 @@ def signal_ref(cfg, ts):
     for src in SOURCES[cfg['sources']]:
         if src[0] == 'table':
             tot += LD(0.75)
+        elif src[0] == 'ctable':
+            tot += np.clongdouble(0.75 + 0.25j)
         elif src[0] == 'f32':
             tot += LD(np.float32(0.3))
             tol += 1e-13
@@ -225,7 +231,7 @@ def n_noise(cfg):
 
 
 def has_complex(cfg):
-    return any(s[0] == 'complex' for s in SOURCES[cfg['sources']])
+    return any(s[0] in ('complex', 'ctable') for s in SOURCES[cfg['sources']])
 
 
 class Model(object):
@@ -253,7 +259,7 @@ def apply_op(s, m, op, cfg, twin, V, site):
         v = s.get_samples(n)
         ts = np.asarray(s.ts)
         for tb in getattr(s, '_c10_tables', []):
-            if not np.all(tb.T == 0.75):
+            if not np.all(tb.T == tb.val):
                 V('custom_source_array_modified', 'the array a custom source returned (a view of its own stored table) was written into by the stream', site)
                 return False
         if v.shape != (n,) or ts.shape != (n,):
@@ -419,7 +425,16 @@ def case_compositions(cfg):
     sig, tol = signal_ref(cfg, whole_ts)
     n = 0
     outs = set()
-    for comp in engine.compositions(N):
+    def with_zeros():
+        # every composition as it is, and with a zero-length request (which the stream accepts) after each of its parts and
+        # after the last one: an empty request returns nothing and leaves clock and noise where they were (seeded change C10-30)
+        for comp0 in engine.compositions(N):
+            yield tuple(comp0)
+            z = []
+            for k in comp0:
+                z += [k, 0]
+            yield tuple(z)
+    for comp in with_zeros():
         n += 1
         s = build_stream(cfg)
         parts, tparts = [], []
@@ -428,6 +443,11 @@ def case_compositions(cfg):
             # buffer that is reused between requests shows up as a corrupted earlier chunk
             parts.append(s.get_samples(k))
             tparts.append(np.array(s.ts))
+        if [len(x) for x in parts] != list(comp) or [len(x) for x in tparts] != list(comp):
+            viol.append({'site': 'DataStream.get_samples', 'failure': 'request_length',
+                         'detail': 'requests of %s samples returned %s samples (timestamps %s)' % (list(comp), [len(x) for x in parts], [len(x) for x in tparts]),
+                         'params': dict(cfg, composition=list(comp))})
+            break
         cat = np.concatenate(parts)
         tcat = np.concatenate(tparts)
         u = ulp(max(abs(cfg['t_start']), N / cfg['rate']))
@@ -444,7 +464,7 @@ def case_compositions(cfg):
             csig, ctol = signal_ref(cfg, tcat)
             nse = twin if nz else np.zeros(N)
             same = bool(np.all(np.abs(cat.astype(np.clongdouble) - (nse.astype(LD) + csig)) <= ctol + 1e-13 * (np.abs(nse) + 1)))
-        outs.add(len(comp))
+        outs.add((len(comp), 0 in comp))
         # the property, literally: the concatenation EQUALS the single request -- the same instants, hence the same voltages
         if not np.array_equal(tcat, whole_ts) or not np.array_equal(cat, whole):
             dmax = float(np.abs(cat - whole).max())
@@ -462,7 +482,7 @@ def case_compositions(cfg):
                          'params': dict(cfg, composition=list(comp))})
             break
     return {'viol': viol, 'n': n, 'traces': n, 'transitions': n * 2, 'states': 0,
-            'outcomes': ['comp%d' % k for k in outs], 'nontrivial': [engine.sha(cfg)]}
+            'outcomes': ['comp%d%s' % (k, '+zeros' if z_ else '') for (k, z_) in outs], 'nontrivial': [engine.sha(cfg)]}
 
 
 def case_antenna(cfg):
